@@ -131,6 +131,23 @@ pub fn judge(x: &Vec<u8>, st: &mut Stats) -> Verdict {
             )?;
         }
     }
+    // a4. the parts written into a detached writer (`Writer::default()`) with their own `write_to`, fixed part first: what a
+    //     forwarder does that assembles the header next to other data; the writer's limit is that of a full-size header
+    {
+        use ppp::v2::{WriteToHeader, Writer};
+        let assembled = guard(|| -> std::io::Result<Vec<u8>> {
+            let mut w = Writer::default();
+            original[..16].write_to(&mut w)?;
+            h.address_bytes().write_to(&mut w)?;
+            // the TLV section in two pieces, the second one small (it lands behind byte 65535 for the largest headers)
+            let tb = h.tlv_bytes();
+            let cut = tb.len().saturating_sub(5);
+            tb[..cut].write_to(&mut w)?;
+            tb[cut..].write_to(&mut w)?;
+            Ok(w.finish())
+        });
+        check("detached-writer", assembled)?;
+    }
     // c. the TLV iterator as a payload
     check("tlvs-iterator", guard(|| Builder::new(x[12], x[13]).write_payload(h.address_bytes())?.write_payload(h.tlvs())?.build()))?;
     // c2. a proxy that validates before it forwards: the iterator has been walked (fully, or by one item) before it
@@ -227,6 +244,24 @@ pub fn judge(x: &Vec<u8>, st: &mut Stats) -> Verdict {
             }),
         )?;
         st.class("items-rebuilt");
+    }
+    // e0. Unix headers: a sibling header whose paths are the same C strings but differ in the bytes behind their terminators is
+    //     rebuilt first (an address block remembered per address VALUE must not stand in for this header's bytes)
+    if fam == 3 && original.len() >= 16 + 216 {
+        let mut sib = original.clone();
+        for base in [16usize, 16 + 108] {
+            if let Some(z) = sib[base..base + 108].iter().position(|&b| b == 0) {
+                for b in sib[base + z + 1..base + 108].iter_mut() {
+                    *b = b.wrapping_add(0x31) | 1;
+                }
+            }
+        }
+        if sib != original {
+            let _ = guard(|| -> std::io::Result<Vec<u8>> {
+                let sh = ppp::v2::Header::try_from(&sib[..]).map_err(|_| std::io::Error::from(std::io::ErrorKind::InvalidData))?;
+                Builder::with_addresses(sib[12], sh.protocol, sh.addresses).write_payload(sh.tlv_bytes())?.build()
+            });
+        }
     }
     // e. from the decoded address value
     if fam != 0 {
